@@ -184,6 +184,24 @@ Proof.
   rewrite (rb_insert_inorder _ _ _ Ei'). apply bt_insert_inorder. apply ssorted_sorted; auto.
 Qed.
 
+(** below the would-be parent reported by an unsuccessful find, the descent
+    of cstl_bintree_insert makes exactly one comparison (none in an empty
+    tree): the hint saves the second walk from the root *)
+Lemma hinted_insert_one_cmp t x :
+  NoDup (ids t) -> fst (bt_find t (ekey x)) = None ->
+  insert_cmps (option_map eid (snd (bt_find t (ekey x)))) t x = match t with E => O | _ => 1%nat end.
+Proof.
+  intros Hnd. unfold bt_find. destruct (find_ctx (ekey x) t []) as [sub c'] eqn:Ef. cbn [fst snd].
+  destruct sub as [|? ? ? ?]; cbn [root_elem]; [intros _|discriminate].
+  destruct c' as [|f new']; cbn [top_elem option_map insert_cmps].
+  - apply find_ctx_stay in Ef. subst t. reflexivity.
+  - pose proof (find_ctx_path _ _ _ _ _ Ef) as (new & Hc & Hp & _). rewrite app_nil_r in Hc. subst new.
+    assert (Ef' : find_ctx (ekey x) t [] = (E, f :: new' ++ [])) by (rewrite app_nil_r; auto).
+    rewrite (locate_find _ _ _ _ _ _ Hnd Ef'), app_nil_r.
+    inversion Hp as [|? ? Hpf _]; subst. rewrite descend_up by auto. cbn [descend length].
+    destruct t; [discriminate|]. lia.
+Qed.
+
 (** __cstl_rbtree_erase of the node a successful find stopped at *)
 Lemma erase_found_ok k t nc nl ne nr c :
   rb_inv t -> find_ctx k t [] = (T nc nl ne nr, c) ->
@@ -223,7 +241,7 @@ Lemma free_live a n :
 Proof. intros H. unfold free. rewrite H. reflexivity. Qed.
 
 (** * The map *)
-Set Default Proof Using "Type".
+Local Set Default Proof Using "Type".
 Section MapSys.
   Variable ck : nat -> Z.
   Variable ok : nat -> N -> bool.
@@ -1042,6 +1060,24 @@ Section MapSys.
     destruct (clear_trace_order (mtab s) _ e (bt_clear_nodup s I) He') as (pre & post & Eq & Hno).
     exists k, v, pre, post. split; auto. split; auto.
     rewrite Eq. unfold entry_of. rewrite Hg. reflexivity.
+  Qed.
+
+  (** comparator calls of an insert: those of the find, plus a single one for
+      the descent from the hinted parent when a node is linked in *)
+  Theorem op_cmps_insert s k v it :
+    map_inv s ->
+    op_cmps ck ok s (MInsert k v it) =
+    (find_cmps (mt s) (ck k) +
+     match alookup (entries s) k with
+     | Some _ => 0
+     | None => if grant ok (mal s) NODE_SIZE then (match mt s with E => 0 | _ => 1 end) else 0
+     end)%nat.
+  Proof using Type.
+    intros I. pose proof (lookup_entries s k I) as L. unfold op_cmps. rewrite map_find_node_eq.
+    destruct (fst (bt_find (mt s) (ck k))) as [e|] eqn:Ef; cbn [option_map].
+    - destruct L as (_ & _ & ->). reflexivity.
+    - destruct L as (_ & ->). destruct (grant ok (mal s) NODE_SIZE); auto. f_equal.
+      apply (hinted_insert_one_cmp (mt s) (mkE (next (mal s)) (ck k))); auto. apply (inv_nodup s I).
   Qed.
 
   (** the invariant in plain terms *)
